@@ -1,7 +1,7 @@
 ----------------------------- MODULE Trace_C01 -----------------------------
 (* C01: recompiling any readable font is lossless and reaches a fixed point.
    Each trace is the recorded life of one real TTFont object over up to three generations:
-   Open(file blobs), Access(tag, content id, raw?), SaveBegin, Write(tag, blob id) in the
+   Open(file blobs), Access(tag, content id, raw?), Edit(tag, new content id), SaveBegin, Write(tag, blob id) in the
    order the tables appear in the written file, SaveEnd, Reopen ...  Blob and content ids
    are injective internings of table bytes (head.checkSumAdjustment masked) and of the
    canonical dump of the decoded table.  The events are replayed through the actions of
@@ -37,6 +37,10 @@ Why(e) ==
   CASE e.a = "Open" -> IF phase = "closed" THEN "ok" ELSE "trace:open-twice"
     [] e.a = "Access" -> WhyAccess(e)
     [] e.a = "SaveBegin" -> IF phase = "open" THEN "ok" ELSE "trace:save-while-saving"
+    [] e.a = "Edit" -> IF phase # "open" \/ e.t \notin Dom(loaded) THEN "trace:edit-of-unloaded-table"
+                       ELSE IF loaded[e.t][1] = "raw" THEN "trace:edit-of-raw-table"
+                       ELSE IF loaded[e.t] = C(e.c) THEN "trace:edit-changed-nothing"
+                       ELSE "ok"
     [] e.a = "Write" -> WhyWrite(e)
     [] e.a = "SaveEnd" -> IF phase = "saving" /\ todo = {} THEN "ok" ELSE "complete:table-missing-from-output"
     [] e.a = "Reopen" -> IF phase = "open" /\ saved # << >> THEN "ok" ELSE "trace:reopen-without-save"
@@ -46,6 +50,7 @@ Act(e) ==
   CASE e.a = "Open" -> Open(FileOf(e))
     [] e.a = "Access" -> Access(e.t, IF e.raw THEN Raw(disk[e.t]) ELSE C(e.c), e.raw)
     [] e.a = "SaveBegin" -> SaveBegin
+    [] e.a = "Edit" -> Edit(e.t, C(e.c))
     [] e.a = "Write" -> Write(e.t, e.b)
     [] e.a = "SaveEnd" -> SaveEnd
     [] e.a = "Reopen" -> Reopen
